@@ -108,6 +108,8 @@ SIBLINGS = {
     'C03-r7-1': ['C03', 'C06'],   # TokString.code re-spells byte 14/15 before a digit wrongly: the echo writer's spelling is C06's subject
     'C03-r6-2': ['C03', 'C06'],
     'C09-r7-3': ['C09', 'C08'],   # the parser rejects a label name reused in sibling blocks: acceptance of valid programs is C08's subject
+    'C01-r8-2': ['C01', 'C02'],   # the 26th generated name repeats the first: non-injective renaming (C02)
+    'C11-r8-1': ['C11', 'C14'],   # a missing file behind a nested require() no longer fails the build (nothing fails, so C11 has nothing to judge): C14's last sentence
     'C19-r7-3': ['C19', 'C20'],   # #include of a cart drops that cart's leading comments: the spliced lines are C20's subject
     'C08-r6-3': ['C08', 'C14'],   # default AST-walker handlers missing for keyed table fields: the parser's tree is intact, build's RequireWalker crashes (C14)   # the change is in #include processing (a commented-out include is expanded): C20's "every other line unchanged"   # the AST *walker* skips if-blocks (the parser's tree is intact): require() inside an if is not packaged (C14)
 }
